@@ -606,7 +606,33 @@ func (c *pctx) funcdef(t *rapid.T) (string, int) {
 
 func (c *pctx) builtin(t *rapid.T) string {
 	c.feat("builtin")
-	switch rapid.IntRange(0, 17).Draw(t, "builtin") {
+	switch rapid.IntRange(0, 20).Draw(t, "builtin") {
+	case 18, 19, 20:
+		// one container with spare capacity (collected, sliced, grown) is
+		// extended or updated twice and both results are kept
+		c.feat("fanout")
+		src := pick(t, "fansrc", []string{"[.[]?]", "[range(3)]", "[.[]?, .[]?]", "[1,2,3][:2]", "([.[]?] + [0])", "[limit(5; repeat(1))]", "([.[]?] | .[1:])", "[range(6)][:3]", "[range(5)]", "(.[:2]? // [1,2,3])",
+			"({a: 1} + (objects // {}))", "[.[]?][:1]", "[range(9)][2:4]", "([range(3)] | .[3] = 3)", "[\"a\", \"b\", \"c\"]", "([.[]?] | map(.))", "[range(3)] | reverse"})
+		op := pick(t, "fanop", []string{". + [%s]", ". + [%s]", ".[length] = %s", "setpath([length]; %s)", ". + [%s] | .[0] = %s", ". + [%s, %s]", ".[length:] = [%s]", ".[3] = %s", ". + [%s] | . + [%s]", "[.[], %s]", ".[1:] + [%s]", ".[:2] + [%s]", ". - [1] + [%s]", "(.[0] = %s) + [%s]", "del(.[0]) + [%s]", "{a: .} | .a += [%s] | .a"})
+		a, b := pick(t, "fana", []string{"10", "\"x\"", "[7]", "null", ".[0]"}), pick(t, "fanb", []string{"20", "\"y\"", "[8]", "false", ".[1]"})
+		opa, opb := op, op
+		for strings.Contains(opa, "%s") {
+			opa, opb = strings.Replace(opa, "%s", a, 1), strings.Replace(opb, "%s", b, 1)
+		}
+		switch rapid.IntRange(0, 5).Draw(t, "fanform") {
+		case 0:
+			return "(" + src + ") as $x | [($x | " + opa + "), ($x | " + opb + ")]"
+		case 1:
+			return "(" + src + ") | (" + opa + "), (" + opb + ")"
+		case 2:
+			return "(" + src + ") | [(" + opa + "), (" + opb + "), .]"
+		case 3:
+			return "(" + src + ") as $x | ($x | " + opa + ") as $y | ($x | " + opb + ") as $z | [$y, $z, $x]"
+		case 4:
+			return "[(" + src + ") | (" + opa + ", " + opb + ")]"
+		default:
+			return "(" + src + ") | (" + opa + ") as $y | [(" + opb + "), $y]"
+		}
 	case 0:
 		return "first(" + c.sub(t, pPipe) + ")"
 	case 1:
